@@ -2,9 +2,14 @@
 from engine.woodlint.db import E, Unrecognised, name_matches, as_relation, flatten_bool, Pos, show, short  # noqa: F401
 
 
-def is_param_field(e, field=None, param=1):
+def is_param_field(e, field=None, param=1, _depth=0):
     """e is `(*argN).field` (through any refs/derefs/copies)."""
     e = e.strip()
+    if e.kind == 'phi' and field is not None and _depth < 3:
+        # the field of a `mut self` taken by value is assigned in place: a later read is a merge of the parameter's
+        # field and of values computed from it -- still "the current value of self.field"
+        return all(is_param_field(a, field, param, _depth + 1) or any(is_param_field(n, field, param, 3) for n in a.walk()) for a in e.args) \
+            and any(is_param_field(a, field, param, _depth + 1) for a in e.args)
     if e.kind != 'proj' or e.op != 'field':
         return False
     if field is not None and e.info.get('n') != field:
@@ -195,3 +200,18 @@ def boundary_checks(fn):
             if same:
                 out.append((b, (op, a, c), same, any(op in _IMPLIES[f] for f in same)))
     return out
+
+
+def some_of(e, v):
+    """If the fact (e, v) says that an Option / Result is Some / Ok -- by a direct match or through `?` -- return the
+    expression of that Option (else None)."""
+    if e.kind != 'discr' or not isinstance(v, tuple) or e.a is None:
+        return None
+    inner = e.a.strip()
+    if inner.kind == 'call' and inner.op.endswith('Try>::branch') and len(inner.args) == 1:
+        if v == ('in', frozenset([0])) or v == ('not', frozenset([1])):
+            return inner.args[0]
+        return None
+    if v == ('in', frozenset([1])) or v == ('not', frozenset([0])):
+        return e.a
+    return None
